@@ -105,9 +105,9 @@ def _apply(nas, x, op, st, dspec, other):
             p.grad = None
         y = nas(x)
         if st['spec'] == 'orig':
-            loss = y.sum() + 1e-3 * (nas.get_cost('a') + nas.get_cost('b'))
+            loss = torch.tanh(y).sum() + 1e-3 * (nas.get_cost('a') + nas.get_cost('b'))
         else:
-            loss = y.sum() + 1e-3 * nas.cost
+            loss = torch.tanh(y).sum() + 1e-3 * nas.cost
         loss.backward()
         with torch.no_grad():
             for p in params:
@@ -162,7 +162,7 @@ def _probe(nas, x, st, dspec, other, with_export=True):
     params = [p for p in nas.parameters() if p.requires_grad]
     for p in params:
         p.grad = None
-    loss = y.sum() + 1e-3 * (nas.get_cost('a') + nas.get_cost('b'))
+    loss = torch.tanh(y).sum() + 1e-3 * (nas.get_cost('a') + nas.get_cost('b'))
     loss.backward()
     with torch.no_grad():
         for p in params:
@@ -203,9 +203,9 @@ def _probe_continue(nas, x, st):
     for p in params:
         p.grad = None
     if st['spec'] == 'orig':
-        loss = y.sum() + 1e-3 * (nas.get_cost('a') + nas.get_cost('b'))
+        loss = torch.tanh(y).sum() + 1e-3 * (nas.get_cost('a') + nas.get_cost('b'))
     else:
-        loss = y.sum() + 1e-3 * nas.cost
+        loss = torch.tanh(y).sum() + 1e-3 * nas.cost
     loss.backward()
     with torch.no_grad():
         for p in params:
